@@ -222,5 +222,56 @@ def write_file_key(vc):
 # BEC2 header layout: pack_auth_blocks == BigConcat(BE1(tag) BE1(len) value) + 00 00 for any number of blocks
 # (the loop contract of C07, an obligation of the layout property too)
 from pyvc.harness import reuse as _reuse
-from contracts import C07 as _C07x
 _reuse("C07/pack_auth_blocks", "C03/pack_auth_blocks.header=TLVs+0000")
+
+
+# ---------------------------------------------------------------------------------------
+# the BEC2 writer: to_binary = "BEC2\0" + pack_auth_blocks(encryptors) + body, the body serialised at offset = length of that
+# header under the file's session key; write_file hands exactly that binary, the BF3 part's comments and the caller's target
+# to the text writer.  (callees stubbed, arguments recorded)
+
+@proof("C03/Bec2File.to_binary+write_file", functions=[(MOD2, "Bec2File.to_binary"), (MOD2, "Bec2File.write_file")],
+       family=lambda seed, tier: [dict(hl=n, header=b"H" * n, bl=m, body=b"B" * m, sk=bytes(range(16))) for n in (2, 21, 130) for m in (0, 9)])
+def bec2_writer(vc):
+    M2 = vc.module(MOD2)
+    header = vc.bytes("header", vc.int("hl", 0, 800))
+    body = vc.bytes("body", vc.int("bl", 0, 1 << 20))
+    sk = vc.bytes("sk", 16)
+    ENCS = [object(), object()]
+    calls = []
+
+    class Bf3Stub:
+        comments = {"Creator": "x"}
+
+        def to_binary(self, offset=0, session_key=None):
+            calls.append(("to_binary", offset, session_key))
+            return body
+
+        def write_bf3_format(self, target, comments, raw):
+            calls.append(("write_bf3_format", target, comments, raw))
+
+    f = M2.Bec2File.__new__(M2.Bec2File)
+    f.bf3file, f.auth_blocks, f.session_key = Bf3Stub(), {}, sk
+    f.pack_auth_blocks = lambda ext_encryptors=(): (calls.append(("pack", ext_encryptors)), header)[1]
+    out = f.to_binary(ENCS)
+    vc.prove("to_binary=BEC2-signature+header+body", out == vc.cat(b"BEC2\0", header, body))
+    vc.prove("header-packed-once-with-the-caller's-encryptors", [c for c in calls if c[0] == "pack"] == [("pack", ENCS)])
+    tb = [c for c in calls if c[0] == "to_binary"]
+    vc.prove("body-serialised-once-at-offset=5+len(header)-under-the-file's-session-key",
+             len(tb) == 1 and vc.And(tb[0][1] == 5 + vc.len(header), tb[0][2] == sk))
+    calls.clear()
+    sink = object()
+    f.to_binary = lambda ext_encryptors=(): (calls.append(("bin", ext_encryptors)), b"THE-BINARY")[1]
+    f.write_file(sink, ENCS)
+    vc.prove("write_file: binary-made-once-with-the-caller's-encryptors", [c for c in calls if c[0] == "bin"] == [("bin", ENCS)])
+    wf = [c for c in calls if c[0] == "write_bf3_format"]
+    vc.prove("write_file: text-writer-gets-target,the-BF3-part's-comments,that-binary",
+             len(wf) == 1 and wf[0][1] is sink and wf[0][2] is f.bf3file.comments and wf[0][3] == b"THE-BINARY")
+    vc.cover("written")
+
+
+_reuse("C03/Bec2File.to_binary+write_file", "C02/Bec2File.to_binary+write_file.hand-over")
+_reuse("C03/Bec2File.to_binary+write_file", "C07/Bec2File.to_binary.body-under-the-file's-session-key")
+# the text form: upper-case hex, 40 bytes (80 columns) per line, after the comment lines and one blank line - the loop
+# contract of the hex writer (proved under C01) is an obligation of the layout property too
+_reuse("C01/write_bf3_format.hex-lines", "C03/write_bf3_format.hex-lines")
